@@ -19,11 +19,11 @@ cvars == <<inp, kind>>
 
 -----------------------------------------------------------------------------
 (* whole-value runs *)
-Verdict(p, c, ok) ==
+Verdict(p, c, ok, left) ==
     CASE c.h = <<"END">> -> "StaysInScript"
       [] c.h = <<"ESC">> -> "NoHtmlComment"
       [] c.j.m = "INTERP" -> "NoInterpolation"
-      [] c.j.m # "top" -> "StaysInLiteral"
+      [] c.j.m # "top" \/ left -> "StaysInLiteral"
       [] ~ok -> "DecodesToInput"
       [] OTHER -> ""
 
@@ -43,13 +43,19 @@ Judge(p, raw, jt, isString, out) ==
     LET d == PosDef(p)
         useRaw == isString /\ d.stages = <<"jsstr">>
         r == ConsumeAll(p, out)
+        \* a value written inside the author's literal must not leave it before the author's closing quote
+        left == d.mode # "top" /\ Consume(p, CsInit(p), out).top
         \* what the consumer must recover: the string itself where a JS string results, else the JSON text
         exp == IF useRaw THEN NormSeq(raw)
                ELSE IF d.expect = "json" THEN NormSeq(jt)
                ELSE IF isString THEN NormSeq(raw) ELSE <<>>
         decoded == NormSeq(r.d)
-        ok == IF ~isString /\ d.expect # "json" THEN TRUE ELSE decoded = exp
-    IN  [dec |-> decoded, viol |-> Verdict(p, r.cs, ok)]
+        \* a non-string value in a code position: the JS engine must receive exactly the JSON text of the value
+        \* a string in a code position: what the engine receives is one double-quoted literal (and it cooks to the string)
+        quoted == Len(r.t) >= 2 /\ r.t[1] = DQ /\ r.t[Len(r.t)] = DQ
+        ok == IF ~isString /\ d.expect # "json" THEN NormSeq(r.t) = NormSeq(jt)
+              ELSE decoded = exp /\ (isString /\ d.mode = "top" => quoted)
+    IN  [dec |-> decoded, viol |-> Verdict(p, r.cs, ok, left)]
 
 \* model prediction (string values in non-json literal positions: raw goes through the table; else the JSON text)
 Predict(sv, p, raw, jt, isString) ==
